@@ -311,6 +311,13 @@ def oracle(line, out, want=("C08", "C09", "C10"), want_window_sink=None):
             first_close = (ce, k, prev["snd_wnd"] if prev else None)
         if k in "csrhxknmlij" and sums:
             last_sum[w] = sums[-1]
+            if "C09" in want and not hostile:
+                # the window a socket advertises is its receive window shifted by its scale factor: with 64 KiB or more free the 16-bit field
+                # cannot be zero (a zero there would stall the peer into zero-window probing - the known 15 s give-up must not mask that)
+                for e in evs:
+                    m = re.match(r"^P\d+=([0-9a-f]{48}):", e)
+                    if m and int(m.group(1)[28:32], 16) == 0 and sums[-1]["rcv_wnd"] >= 65536 and sums[-1]["state"] in (2, 3):
+                        return "a socket with %d bytes of receive window free advertised a zero window (%s)" % (sums[-1]["rcv_wnd"], e[:60])
         elif k == "Q" and len(sums) == 2:
             last_sum = [sums[0], sums[1]]
         if k == "T":
